@@ -61,7 +61,7 @@ def flags_ns():
                 import enum
                 return enum._decompose(enum_cls, value)
             members = [(m, value.bit(m.value)) for m in enum_cls]       # assumed contract of enum._decompose
-            return GuardedSeq(members), Truthy(value.unknown)
+            return GuardedSeq(members), Truthy(value.unknown([m.value for m in enum_cls]))
 
         def h_set(*a):
             return GhostNameSet() if not a else set(*a)
@@ -90,17 +90,17 @@ def h_enum(ctx, cfg):
 def h_to(ctx, cfg):
     ns = flags_ns()
     spec = spec_defined_flags(cfg)
-    w = SymFlagWord.fresh("f_", sorted(spec))
-    ctx.input("word_bits", {hex(v): b for v, b in w.bits.items()})
-    ctx.input("unknown_bits_set", w.unknown)
+    w = SymFlagWord.fresh("f_")
+    unknown = w.unknown(sorted(spec))
+    ctx.input("flag_word", w.bv)
     try:
         res = ns["to_flags_data"](w)
     except ValueError:
-        ctx.prove("raise.only_when_an_undefined_bit_is_set", w.unknown)
+        ctx.prove("raise.only_when_an_undefined_bit_is_set", unknown)
         return
-    ctx.prove("post.returns_only_when_every_bit_is_defined(C11: no silent drop)", z3.Not(w.unknown))
+    ctx.prove("post.returns_only_when_every_bit_is_defined(C11: no silent drop)", z3.Not(unknown))
     if isinstance(res, set):
-        ctx.prove("post.empty_result_only_for_zero", z3.And(z3.BoolVal(res == set()), z3.Not(z3.Or(*w.bits.values()))))
+        ctx.prove("post.empty_result_only_for_zero", z3.And(z3.BoolVal(res == set()), w.bv == 0))
         return
     byname = {m.name: m.value for m in F._CodeFlag}
     for name, val in sorted(byname.items()):
@@ -121,7 +121,7 @@ def h_from(ctx, cfg):
         w = SymFlagWord.of_int(w)
     for n, v in sorted(byname.items()):
         ctx.prove("post.bit_set_iff_name_present[%s]" % n, w.bit(v) == s.has(n))
-    ctx.prove("post.no_undefined_bit", z3.And(z3.Not(w.unknown), z3.BoolVal(set(w.bits) <= set(byname.values()))))
+    ctx.prove("post.no_undefined_bit", z3.Not(w.unknown(sorted(byname.values()))))
 
 
 @harness("flags.roundtrip", props=["C11", "C01"], functions=["code_data._flags_data.to_flags_data", "code_data._flags_data.from_flags_data"], configs="all",
@@ -129,26 +129,24 @@ def h_from(ctx, cfg):
 def h_rt(ctx, cfg):
     ns = flags_ns()
     spec = spec_defined_flags(cfg)
-    w = SymFlagWord.fresh("f_", sorted(spec))
-    ctx.input("word_bits", {hex(v): b for v, b in w.bits.items()})
+    w = SymFlagWord.fresh("f_")
+    ctx.input("flag_word", w.bv)
     try:
         res = ns["to_flags_data"](w)
     except ValueError:
-        ctx.prove("raise.only_when_an_undefined_bit_is_set", w.unknown)
+        ctx.prove("raise.only_when_an_undefined_bit_is_set", w.unknown(sorted(spec)))
         return
     back = ns["from_flags_data"](res if not isinstance(res, set) else GhostNameSet())
     if isinstance(back, int):
         back = SymFlagWord.of_int(back)
-    for v in sorted(spec):
-        ctx.prove("roundtrip.bit[%#x %s]" % (v, spec[v]), back.bit(v) == w.bit(v))
-    ctx.prove("roundtrip.no_extra_bits", z3.BoolVal(set(back.bits) <= set(spec)))
+    ctx.prove("roundtrip.from_flags_data(to_flags_data(f)) == f", back.bv == w.bv)
 
 
 @harness("flags.to_flags_data.canary", props=["C11"], functions=["code_data._flags_data.to_flags_data"], configs="any", expect="failed",
          notes="known-false: to_flags_data never raises")
 def h_canary(ctx, cfg):
     ns = flags_ns()
-    w = SymFlagWord.fresh("f_", sorted(spec_defined_flags(cfg)))
+    w = SymFlagWord.fresh("f_")
     try:
         ns["to_flags_data"](w)
     except ValueError:
